@@ -83,7 +83,7 @@ static void env_reset(void)
     env_disarm_ok = 0; env_disarm_now = 0;
     env_n_cb = 0; env_n_tx = 0;
     env_n_find_key = env_n_setup = env_n_start_rx = env_n_start_tx = env_n_restore = 0;
-    for (unsigned i = 0; i < ENV_MAX_TX; ++i) for (unsigned j = 0; j < 29; ++j) env_tx[i][j] = 0;
+    memset(env_tx, 0, sizeof env_tx);
 }
 
 static unsigned env_count_cb(unsigned kind)
@@ -131,7 +131,7 @@ static void sym_parameters(void)
 
 static void sym_misc(int cfg)
 {
-    for (int i = 0; i < VFD_NFIELDS; ++i) st[i] = 0;
+    memset(st, 0, sizeof st);
     st[VFD_STATE]            = VFD_ST_CONNECTED;
     st[VFD_EVENT_COUNTER]    = in_u16();
     st[VFD_CHANNEL_INDEX]    = (uint32_t)in_range(0, 36);
